@@ -34,6 +34,8 @@ def obligations(ctx):
         obs.append(ag.api_ob(t, api, 4, 1, 1, 2, 2, flags=("--slice-formula", "--nondet-static"), tag="nostatic/"))
     # (3) warm-up protocol of the *_simple functions
     obs += [o for o in c15.history_obs(ctx) if "/avx=1" in o.name or "same-dim" in o.name]
+    # (4) thread-local caches under call-granularity interleavings of two threads
+    obs += c15.thread_history_obs(ctx)
     return obs
 
 
